@@ -1,11 +1,15 @@
-GO_PKG = "."
-GO_PKGNAME = "dht"
-HARNESS = ["dht/c09_test.go"]
-GO_TEST = "TestVerifC09"
+# two runs: one request against a fresh node (the handlers), and - for the clause "a client-mode node answers nothing"
+# across mode switches with streams already open - the histories of the C13 harness (same cases, judged by Run_C13:
+# a request served while the node is in client mode is a failure there)
+GO_RUNS = [
+    {"pkg": ".", "pkgname": "dht", "test": "TestVerifC09", "share": 0.7, "harness": ["dht/c09_test.go"]},
+    {"pkg": ".", "pkgname": "dht", "test": "TestVerifC13", "share": 0.3, "harness": ["dht/c13_test.go"]},
+]
 RUN_MODULE = "Run_C09"
-COQ_TARGETS = ["Corr/Run_C09.vo", "Proofs/HandlersProofs.vo", "Proofs/PeerRecordProofs.vo"]
-N = {"quick": 300, "thorough": 2000}
-RULE = ("one request against a freshly built real IpfsDHT per case: server/client mode, values/providers enabled or not, K in {1,2,3,5,20}, "
+COQ_TARGETS = ["Corr/Run_C09.vo", "Corr/Run_C13.vo", "Proofs/HandlersProofs.vo", "Proofs/PeerRecordProofs.vo", "Proofs/ModeProofs.vo"]
+N = {"quick": 430, "thorough": 2900}
+RULE = ("second run (30% of the cases): the mode-switch histories of the C13 harness (streams opened before a demotion on connections of "
+        "both directions, requests arriving afterwards). First run: one request against a freshly built real IpfsDHT per case: server/client mode, values/providers enabled or not, K in {1,2,3,5,20}, "
         "routing table seeded with 0-60 peers (sometimes the requester and the node itself), scripted peerstore (no / few / >8 KiB of "
         "addresses per peer, fixed order), connectedness, address filter, value store with or without the requested record or failing, "
         "provider store with 0-20 providers (530-3000 maximal records in the budget cases) or failing; requests of every type 0-5 and "
